@@ -1,12 +1,414 @@
 package main
 
+import (
+	"encoding/json"
+	"flag"
+	"fmt"
+	"os"
+	"path/filepath"
+	"runtime"
+	"sort"
+	"strconv"
+	"strings"
+	"time"
+
+	"symgo/vm"
+)
+
 type CheckSpec struct {
-	ID      string
-	PkgDirs []string
-	Quick   []HarnessRun
+	ID       string
+	PkgDir   string // harness package dir: "part", "lpm", "index", "statedb", "reconciler"
+	Quick    []HarnessRun
 	Thorough []HarnessRun
+	Known    []KnownProbe // probes for open known findings of this property
+	Outside  []string     // what lies outside the bounds (goes to evidence.assumptions)
+	Stubs    []string
+}
+
+// KnownProbe: a harness entry that must still fail while finding ID is open.
+type KnownProbe struct {
+	ID    string
+	Entry string
+	Params map[string]int
 }
 
 var checks = map[string]*CheckSpec{}
 
-func cmdCheck(args []string) int { return 2 }
+func reg(c *CheckSpec) { checks[c.ID] = c }
+
+type runEvidence struct {
+	Entry        string         `json:"entry"`
+	Params       map[string]int `json:"params"`
+	Paths        int            `json:"paths"`
+	ByStatus     map[string]int `json:"paths_by_status"`
+	Decisions    int64          `json:"decisions"`
+	Steps        int64          `json:"ssa_steps"`
+	Assertions   int            `json:"assertion_queries_discharged"`
+	AssertTriv   int            `json:"assertions_folded_true"`
+	Queries      int            `json:"solver_queries"`
+	SolverS      float64        `json:"solver_time_s"`
+	WallS        float64        `json:"wall_s"`
+	Covers       map[string]int `json:"cover_points_hit"`
+	DiffRuns     int            `json:"differential_runs_vm_vs_native"`
+	VacuityTwin  string         `json:"vacuity_twin"`
+	Inconclusive int            `json:"inconclusive_paths"`
+}
+
+func cmdCheck(args []string) int {
+	fs := flag.NewFlagSet("check", flag.ExitOnError)
+	tier := fs.String("tier", "", "quick|thorough")
+	workers := fs.Int("workers", runtime.NumCPU(), "")
+	var id string
+	if len(args) > 0 && !strings.HasPrefix(args[0], "-") {
+		id = args[0]
+		args = args[1:]
+	}
+	fs.Parse(args)
+	if id == "" && fs.NArg() > 0 {
+		id = fs.Arg(0)
+	}
+	if *tier == "" {
+		*tier = os.Getenv("VERIF_TIER")
+	}
+	if *tier == "" {
+		*tier = "quick"
+	}
+	seed := uint64(1)
+	if s := os.Getenv("VERIF_SEED"); s != "" {
+		if v, err := strconv.ParseUint(s, 10, 64); err == nil {
+			seed = v
+		}
+	}
+	spec := checks[id]
+	if spec == nil {
+		fmt.Fprintf(os.Stderr, "unknown check %q\n", id)
+		return 2
+	}
+	t0 := time.Now()
+	runs := spec.Quick
+	if *tier == "thorough" && len(spec.Thorough) > 0 {
+		runs = spec.Thorough
+	}
+	env, err := loadEnv([]string{spec.PkgDir})
+	if err != nil {
+		fmt.Fprintln(os.Stderr, "LOAD-ERROR:", err)
+		writeEvidence(spec, *tier, seed, nil, nil, 0, []string{"load error: " + err.Error()}, time.Since(t0), 0, nil)
+		return 2
+	}
+	fmt.Printf("[%s] loaded %s from %s in %v (tier %s)\n", id, spec.PkgDir, repoDir, env.LoadTime.Round(time.Millisecond), *tier)
+	cross := ""
+	if *tier == "thorough" {
+		cross = "z3-new"
+	}
+	var open []string
+	for k := range env.OpenKnown {
+		open = append(open, k)
+	}
+	sort.Strings(open)
+
+	exit := 0
+	var problems []string
+	var evs []runEvidence
+	var samples []any
+	funcs := map[string]bool{}
+	violations := 0
+	totalDiff := 0
+	for _, run := range runs {
+		run.PkgPath = pkgPathOf(spec.PkgDir)
+		ev := runEvidence{Entry: run.Entry, Params: run.Params}
+		// (a) translator validation: concrete differential runs VM vs native
+		if run.DiffRuns > 0 && !run.NoNative {
+			n, msg := differential(env, spec, run, seed, open)
+			ev.DiffRuns = n
+			totalDiff += n
+			if msg != "" {
+				fmt.Printf("ENGINE-MISMATCH %s %s: %s\n", id, run.Entry, msg)
+				problems = append(problems, "engine mismatch: "+msg)
+				exit = 2
+			}
+		}
+		// (b) symbolic exploration
+		timeout := 20 * time.Minute
+		if *tier == "thorough" {
+			timeout = 3 * time.Hour
+		}
+		res := explore(env, run, *workers, cross, timeout)
+		printResult(res)
+		for f := range res.Funcs {
+			funcs[f] = true
+		}
+		ev.Paths, ev.ByStatus, ev.Decisions, ev.Steps = res.Paths, res.ByStatus, res.Decisions, res.Steps
+		ev.Assertions, ev.AssertTriv, ev.Queries = res.Asserts, res.AssertsTriv, res.Queries
+		ev.SolverS, ev.WallS, ev.Covers = res.SolverTime.Seconds(), res.Wall.Seconds(), res.Covers
+		for _, s := range res.Samples {
+			if len(samples) < 8 {
+				samples = append(samples, map[string]any{"entry": run.Entry, "params": run.Params, "witness_inputs": compactTape(s)})
+			}
+		}
+		// (c) violations: native replay
+		for i, v := range res.Violations {
+			p := writeReplay(id, spec.PkgDir, run, v, i)
+			if run.NoNative {
+				ok := vmReplay(env, run, v)
+				if ok {
+					fmt.Printf("VIOLATION property=%s replay=%s\n", id, p)
+					fmt.Printf("  assertion %s: %s (replayed concretely in the VM on the real code; harness uses VM-only scheduling)\n", v.AssertID, v.Msg)
+					violations++
+					exit = 1
+				} else {
+					fmt.Printf("ENGINE-MISMATCH %s: VM replay of %s did not reproduce\n", id, p)
+					problems = append(problems, "replay mismatch "+p)
+					if exit == 0 {
+						exit = 2
+					}
+				}
+				continue
+			}
+			ok, out := nativeReplay(p)
+			if !ok {
+				// map-order / scheduling dependent counterexamples: retry a few times
+				for k := 0; k < 4 && !ok; k++ {
+					ok, out = nativeReplay(p)
+				}
+			}
+			if ok {
+				fmt.Printf("VIOLATION property=%s replay=%s\n", id, p)
+				fmt.Printf("  assertion %s: %s (reproduced natively with go test)\n", v.AssertID, v.Msg)
+				violations++
+				exit = 1
+			} else {
+				fmt.Printf("ENGINE-MISMATCH %s: counterexample %s (%s) did not reproduce natively\n%s\n", id, p, v.AssertID, tail(out, 12))
+				problems = append(problems, "native replay mismatch "+p)
+				if exit == 0 {
+					exit = 2
+				}
+			}
+		}
+		// (d) inconclusive paths
+		bad := 0
+		for st, n := range res.ByStatus {
+			switch st {
+			case "ok", "assume", "violation":
+			default:
+				bad += n
+			}
+		}
+		ev.Inconclusive = bad
+		if bad > 0 || res.Truncated || res.SolverErrors > 0 {
+			msg := fmt.Sprintf("%s: %d inconclusive paths, truncated=%v, solver errors=%d", run.Entry, bad, res.Truncated, res.SolverErrors)
+			problems = append(problems, msg)
+			for _, p := range res.Problems {
+				problems = append(problems, firstLines(p, 3))
+			}
+			if len(res.Violations) == 0 || bad > 0 {
+				if exit == 0 {
+					exit = 2
+				}
+			}
+		}
+		// (e) vacuity: cover points + twin
+		if len(res.Violations) == 0 {
+			for _, c := range run.Covers {
+				if res.Covers[c] == 0 {
+					fmt.Printf("VACUOUS %s %s: cover point %s not reached\n", id, run.Entry, c)
+					problems = append(problems, "cover point not reached: "+c)
+					if exit == 0 {
+						exit = 2
+					}
+				}
+			}
+			tw := vacuityTwin(env, run)
+			ev.VacuityTwin = tw
+			if tw != "sat" {
+				problems = append(problems, "vacuity twin of "+run.Entry+" did not come back sat: "+tw)
+				if exit == 0 {
+					exit = 2
+				}
+			}
+		}
+		evs = append(evs, ev)
+	}
+	// (f) known findings of this property
+	for _, kp := range spec.Known {
+		kf, ok := loadKnown()[kp.ID]
+		if !ok || kf.Status != "open" {
+			continue
+		}
+		run := HarnessRun{Entry: kp.Entry, PkgPath: pkgPathOf(spec.PkgDir), Params: kp.Params}
+		res := explore(env, run, *workers, "", 10*time.Minute)
+		if len(res.Violations) > 0 {
+			fmt.Printf("KNOWN-FINDING: property=%s %s: %s\n", id, kp.ID, kf.What)
+		} else {
+			fmt.Printf("NOTE: known finding %s no longer reproduces (status=%v); consider marking it fixed\n", kp.ID, res.ByStatus)
+		}
+	}
+	wall := time.Since(t0)
+	writeEvidence(spec, *tier, seed, evs, samples, violations, problems, wall, totalDiff, funcs)
+	switch exit {
+	case 0:
+		fmt.Printf("[%s] OK: property held on everything explored (%v)\n", id, wall.Round(time.Millisecond))
+	case 2:
+		fmt.Printf("[%s] INCONCLUSIVE: %s\n", id, strings.Join(problems, "; "))
+	}
+	return exit
+}
+
+func compactTape(t []vm.TapeEntry) []string {
+	var out []string
+	for _, e := range t {
+		out = append(out, fmt.Sprintf("%s=%d", e.Tag, e.Val))
+	}
+	if len(out) > 60 {
+		out = append(out[:60], "...")
+	}
+	return out
+}
+
+// differential runs the harness on n seeded random concrete tapes in the VM
+// and natively and compares status + observation digest.
+func differential(env *vm.Env, spec *CheckSpec, run HarnessRun, seed uint64, open []string) (int, string) {
+	n := run.DiffRuns
+	native, out, err := nativeDigests(spec.PkgDir, run.Entry, run.Params, seed, n, open)
+	if err != nil || len(native) != n {
+		return 0, fmt.Sprintf("native differential run failed (%d/%d digests): %v\n%s", len(native), n, err, tail(out, 15))
+	}
+	env.Params = run.Params
+	wk, err := env.NewWorker("z3", 20000, "")
+	if err != nil {
+		return 0, err.Error()
+	}
+	defer wk.Close()
+	for i := 0; i < n; i++ {
+		s := seed + uint64(i)
+		o := wk.Run(vm.RunOpts{Entry: run.PkgPath + "." + run.Entry, Concrete: true, UseRng: true, Seed: s, Budget: run.Budget})
+		st := o.Status
+		if st == "violation" && o.Violation != nil {
+			if o.Violation.AssertID == "panic" {
+				st = "panic"
+			} else {
+				st = "violation:" + o.Violation.AssertID
+			}
+		}
+		got := fmt.Sprintf("%s %016x", st, o.Observed)
+		if got != native[s] {
+			return i, fmt.Sprintf("seed %d: VM %q vs native %q (%s)", s, got, native[s], firstLines(o.Msg, 3))
+		}
+	}
+	return n, ""
+}
+
+// vacuityTwin re-runs the first path of the harness with a final assert(false):
+// it must come back satisfiable (the end of the harness is reachable under a
+// satisfiable path condition).
+func vacuityTwin(env *vm.Env, run HarnessRun) string {
+	env.Params = run.Params
+	wk, err := env.NewWorker("z3", 20000, "")
+	if err != nil {
+		return err.Error()
+	}
+	defer wk.Close()
+	// follow first alternatives until a path ends ok
+	var stack [][]vm.Decision
+	stack = append(stack, nil)
+	for tries := 0; tries < 200 && len(stack) > 0; tries++ {
+		p := stack[len(stack)-1]
+		stack = stack[:len(stack)-1]
+		o := wk.Run(vm.RunOpts{Entry: run.PkgPath + "." + run.Entry, Prefix: p, Budget: run.Budget, FailAtEnd: true, Preempt: run.Preempt, SymMapOrder: run.MapOrder})
+		if o.Status == "violation" && o.Violation != nil && o.Violation.AssertID == "vacuity-twin" {
+			return "sat"
+		}
+		stack = append(stack, o.NewAlts...)
+	}
+	return "not-reached"
+}
+
+// vmReplay re-executes the harness concretely in the VM with the tape.
+func vmReplay(env *vm.Env, run HarnessRun, v *vm.Violation) bool {
+	env.Params = run.Params
+	wk, err := env.NewWorker("z3", 20000, "")
+	if err != nil {
+		return false
+	}
+	defer wk.Close()
+	o := wk.Run(vm.RunOpts{Entry: run.PkgPath + "." + run.Entry, Concrete: true, Tape: v.Tape, Budget: run.Budget, Preempt: run.Preempt, SymMapOrder: run.MapOrder, ReplayChoices: true})
+	return o.Status == "violation" && o.Violation != nil && o.Violation.AssertID == v.AssertID
+}
+
+func writeEvidence(spec *CheckSpec, tier string, seed uint64, evs []runEvidence, samples []any, violations int, problems []string, wall time.Duration, diff int, funcs map[string]bool) {
+	paths, asserts, triv, queries := 0, 0, 0, 0
+	solverS := 0.0
+	var decisions int64
+	for _, e := range evs {
+		paths += e.Paths
+		asserts += e.Assertions
+		triv += e.AssertTriv
+		queries += e.Queries
+		solverS += e.SolverS
+		decisions += e.Decisions
+	}
+	var fl []string
+	for f := range funcs {
+		if strings.Contains(f, vm.ModulePath) && !strings.Contains(f, "/internal/vnd") && !strings.Contains(f, "Verif") {
+			fl = append(fl, strings.ReplaceAll(f, vm.ModulePath, "statedb"))
+		}
+	}
+	sort.Strings(fl)
+	if len(samples) == 0 {
+		samples = []any{"no path completed"}
+	}
+	assumptions := []string{
+		"bounds: see coverage.runs[].params (L = max key length in bytes, every byte value 0..255 symbolic; N = operations; see DESIGN.md section 4)",
+		"go/packages + go/ssa (x/tools v0.50.0) lower the current /repo tree faithfully; symgo VM executes SSA with Go semantics (validated per run by VM-vs-native differential runs and by native replay of every counterexample)",
+		"z3 4.8.12 answers are correct (thorough tier: every assertion query cross-checked with z3 5.1)",
+		"intrinsics/stubs: bytes/strings comparison primitives as terms; sync.Mutex/atomic/Pool/WaitGroup/Map modelled; virtual time; fmt mini-formatter; os.Getenv=\"\"; runtime.SetFinalizer no-op; package init calls into hive/expvar return zero values",
+	}
+	assumptions = append(assumptions, spec.Outside...)
+	assumptions = append(assumptions, spec.Stubs...)
+	ev := map[string]any{
+		"property_id": spec.ID,
+		"tier":        tier,
+		"seed":        seed,
+		"level":       "other",
+		"coverage": map[string]any{
+			"explanation": "bounded symbolic execution of the real code (go/ssa of /repo's current tree) with SMT: every feasible path within the stated bounds was explored (path partition of the input space), each assertion discharged as an unsat query PC && !assertion, or reported with a natively replayed counterexample",
+			"evaluations":         paths,
+			"distinct_nontrivial": paths,
+			"rule":                "one evaluation = one explored path = one equivalence class of inputs (distinct decision sequence); all paths are distinct by construction; a path is non-trivial because it ends in the harness' assertions or an assume",
+			"samples":             samples,
+			"obligations":         asserts + triv,
+			"discharged":          asserts + triv - violations,
+			"assertion_queries_unsat": asserts,
+			"assertions_folded_true_by_term_simplification": triv,
+			"checker_cmd":         fmt.Sprintf("./bin/verif check %s --tier %s", spec.ID, tier),
+			"trusted_base":        []string{"go/ssa (x/tools v0.50.0)", "symgo VM + intrinsics (/verif/engine)", "z3 4.8.12", "harness oracles (/verif/harness)"},
+			"traces_validated_against_impl": diff,
+			"runs":                evs,
+			"paths":               paths,
+			"decisions":           decisions,
+			"solver_queries":      queries,
+			"solver_time_s":       solverS,
+			"functions_executed":  fl,
+			"problems":            problems,
+			"exhaustive":          len(problems) == 0,
+		},
+		"assumptions": assumptions,
+		"wall_s":      wall.Seconds(),
+		"violations":  violations,
+	}
+	os.MkdirAll(filepath.Join(verifDir, "evidence"), 0o755)
+	b, _ := json.MarshalIndent(ev, "", " ")
+	os.WriteFile(filepath.Join(verifDir, "evidence", spec.ID+".json"), b, 0o644)
+}
+
+func init() {
+	reg(&CheckSpec{
+		ID: "C18", PkgDir: "statedb",
+		Quick: []HarnessRun{
+			{Entry: "VerifC18NonUnique", Params: map[string]int{"L": 2}, Covers: []string{"C18.escape-used", "C18.shorter-secondary-with-primary", "C18.nonunique.end"}, DiffRuns: 40},
+			{Entry: "VerifC18Ints", Covers: []string{"C18.ints.end"}, DiffRuns: 20},
+			{Entry: "VerifC18Strings", Params: map[string]int{"L": 3}, Covers: []string{"C18.strings.end"}, DiffRuns: 20},
+			{Entry: "VerifC18LPM", Params: map[string]int{"LPMBYTES": 3}, Covers: []string{"C18.lpm.end", "C18.lpm.partial-byte"}, DiffRuns: 20},
+		},
+		Outside: []string{"outside: secondary/primary keys longer than the L bound; encoded primaries >= 256 bytes (length suffix high byte); netip-typed encoders (net/netip internals are not executed)"},
+	})
+}
